@@ -6,8 +6,8 @@ Configuration name: `w<bits>-<std|nostd>-<dev|rel>`
          => base/src/math/log.rs uses the table-driven log2 estimator)
   dev    cargo dev profile (debug assertions and overflow checks on);  rel = --release (both off)
 
-The three quick-tier configurations are cached under /verif/.cache/cfg-<name>; every other one is built
-under a `mktemp -d` directory outside /repo and /verif that is removed when the process exits.
+The eight supported configurations are cached under /verif/.cache/cfg-<name> (incremental rebuilds); the unsupported one
+is built under a `mktemp -d` directory outside /repo and /verif that is removed when the process exits.
 `build(confs)` returns (manifest path, info): the manifest has one line per configuration,
 `<conf> <path to exec_cfg>` or `<conf> !<reason>` when the configuration does not build; the front
 binary `exec_cfg` reads it (env DASHU_CFG_MANIFEST)."""
@@ -37,7 +37,10 @@ def _tmp():
 
 
 def target_dir(conf):
-    if conf in QUICK:
+    # every supported configuration keeps its target directory under .cache (incremental rebuilds: on a loaded machine a
+    # from-scratch build of one worker takes tens of minutes); only the configuration known not to compile is built in a
+    # scratch directory
+    if conf in QUICK or conf in ALL:
         return os.path.join(core.CACHE, "cfg-" + conf)
     return os.path.join(_tmp(), "cfg-" + conf)
 
